@@ -1081,4 +1081,25 @@ theorem vectorRef_congr {σ σ' : Store} {id : Nat} (h : σ'.vecs[id]? = σ.vecs
 
 end Prim
 
+namespace Store
+
+/-- the demo store is well formed -/
+theorem demo_wf : demo.WF := by
+  refine ⟨fun i f h p hp => ?_, fun i f h kv hkv => ?_, fun i c h v hv => ?_⟩
+  · have hi : i < 4 := Store.getElem?_some_lt h
+    have : i = 0 ∨ i = 1 ∨ i = 2 ∨ i = 3 := by omega
+    rcases this with rfl | rfl | rfl | rfl <;> simp [demo] at h <;> subst h <;> simp at hp <;> omega
+  · have hi : i < 4 := Store.getElem?_some_lt h
+    have : i = 0 ∨ i = 1 ∨ i = 2 ∨ i = 3 := by omega
+    rcases this with rfl | rfl | rfl | rfl <;> simp [demo] at h <;> subst h <;>
+      simp at hkv <;> (try rcases hkv with rfl | rfl) <;> (try subst hkv) <;>
+      simp [Store.AllocIn, demo]
+  · have hi : i < 2 := Store.getElem?_some_lt h
+    have : i = 0 ∨ i = 1 := by omega
+    rcases this with rfl | rfl <;> simp [demo] at h <;> subst h <;>
+      simp at hv <;> (try rcases hv with rfl | rfl) <;> (try subst hv) <;>
+      simp [Store.AllocIn, demo]
+
+end Store
+
 end Ruschm
